@@ -8,12 +8,12 @@ ALL = [f"C{n:02d}" for n in range(1, 21)]
 CLAIMS = {
  "C01": dict(
   technique="runtime monitor over decoder executions: panic hook + read_name step counter hook + counting allocator + differential against an independent RFC 1035 parser, on random/mutated/grammar/overlapping-pointer-run/exhaustive small-alphabet inputs",
-  text="Every generated datagram (millions per run, plus every string over a 9-byte name alphabet up to length 6/7 behind four headers) is decoded by the real decoder under instrumentation: a panic, more than 128*len+1024 name-loop steps, more than 1024*len+1MiB peak heap, a name longer than the datagram, or any disagreement with the independent parser W on an accepted message is a violation; label runs laid over one another by backward pointers (G5), strings and RDATA whose length octets are one off either way (G6) and, at a running daemon, every proper prefix of valid responses (R6: nothing beyond the received bytes may be acted on) are part of the input. Held on the inputs explored; not a proof for all 2^72000 datagrams.",
+  text="Every generated datagram (millions per run, plus every string over a 9-byte name alphabet up to length 6/7 behind four headers) is decoded by the real decoder under instrumentation: a panic, more than 128*len+1024 name-loop steps, more than 1024*len+1MiB peak heap, a name longer than the datagram, or any disagreement with the independent parser W on an accepted message is a violation; label runs laid over one another by backward pointers (G5), strings and RDATA whose length octets are one off either way and well-formed TXT records of several hundred bytes of 2-/3-/4-byte characters in front of a record the header announces but the datagram lacks (G6) and, at a running daemon, every proper prefix of valid responses (R6: nothing beyond the received bytes may be acted on) are part of the input. Held on the inputs explored; not a proof for all 2^72000 datagrams.",
   note="Trusts the independent parser W (harness/src/wire.rs), the step hook in read_name (loops elsewhere are bounded by 16-bit counts) and the counting allocator.",
   ref="§6 C01"),
  "C02": dict(
   technique="runtime differential monitor: messages built through the crate's encoder are parsed back by an independent parser and by the crate's decoder and compared with label-level ground truth",
-  text="Tens of thousands (thorough: >1M) generated messages per run - small, near the 8972-byte limit, several packets long, with an over-size record followed by suffix-sharing records, with look-alike names (a\\.b vs a.b), names whose lone backslashes are given unescaped the way the daemon keeps names it learned from the network, and ServiceInfo-derived names - are encoded by the real encoder; every packet must be <= 8972 bytes, parse strictly, carry only added records in order with intact names, drop nothing that fits, set TC on all but the last packet, and read back identically through the crate's own decoder.",
+  text="Tens of thousands (thorough: >1M) generated messages per run - small, near the 8972-byte limit, several packets long, with an over-size record followed by suffix-sharing records, with look-alike names (a\\.b vs a.b), names whose lone backslashes are given unescaped the way the daemon keeps names it learned from the network, and ServiceInfo-derived names - are encoded by the real encoder; every packet must be <= 8972 bytes, parse strictly, carry only added records in order with intact names, drop nothing that fits, set TC on all but the last packet, and read back identically through the crate's own decoder; a label of more than 63 bytes (the daemon meets them in names learned from the network) is replaced by a whole-character prefix in a packet that both parsers accept (E7).",
   note="Trusts W. E4 allowance: in a response, additionals after the first one that does not fit may be left out (DESIGN §12).",
   ref="§6 C02"),
  "C11": dict(
@@ -33,7 +33,7 @@ CLAIMS = {
   ref="§6 C07"),
  "C12": dict(
   technique="runtime differential monitor (same scenario woken only on request vs additionally every 10 ms) + invariant on hooked state at every loop iteration (requested wake-up <= every future due time) + the poll time-out computed by the run loop (hooked) compared with its earliest timer, also under sends that cost virtual time + idle-spin detector",
-  text="Paired lazy/eager runs of registration, search, lost-tiebreak, conflict-rename, interface-check-interval, expiry/goodbye/flush/verify/stop, follow-up and interface-flap-while-probing scenarios: every action of the eager run must occur in the lazy run and not later (W1); at every gate of the lazy run the requested wake-up is compared with all pending due times read from a full state snapshot (W2); three idle iterations asking to be woken at or before their own time are a spin (W3); at every gate of the lazy run and of a third run in which every datagram sent costs 1-3 ms of virtual time (timers fall due while the daemon is busy) the time-out about to be handed to poll ends no later than the earliest timer, or one millisecond from now if that is overdue (W4).",
+  text="Paired lazy/eager runs of registration, search, lost-tiebreak, conflict-rename, interface-check-interval, expiry/goodbye/flush/verify/stop, follow-up, interface-flap-while-probing, conflict-during-an-update and host-name-time-out (0, 1, 5 ms ...) scenarios, a quarter of them on daemons that do not hear their own multicast: every action of the eager run must occur in the lazy run and not later (W1); at every gate of the lazy run the requested wake-up is compared with all pending due times read from a full state snapshot (W2); three idle iterations asking to be woken at or before their own time are a spin (W3); at every gate of the lazy run and of a third run in which every datagram sent costs 1-3 ms of virtual time (timers fall due while the daemon is busy) the time-out about to be handed to poll ends no later than the earliest timer, or one millisecond from now if that is overdue (W4).",
   note="Constant jitter per pair (HashMap visiting order must not change who gets which jitter). The interface-check timer is a local of the run loop: covered by W1 only.",
   ref="§6 C12"),
  "C13": dict(
@@ -43,27 +43,27 @@ CLAIMS = {
   ref="§6 C13"),
  "C14": dict(
   technique="runtime monitor over enumerated command-queue positions and iteration splits of shutdown (simulated daemon behind the gate), calls injected mid-clean-up through a send hook, real-thread stress with resolved-receiver check; ThreadSanitizer and valgrind memcheck over the real-thread stress (thorough)",
-  text="Part A: shutdown at every position of every sequence of N<=1 (thorough N<=2) commands out of 20 kinds, released in one iteration or split over up to three, with 0-3 announced services and open searches (a third of the cases with four more open browses and searches whose receivers were dropped without a stop), plus sampled sequences to N=8: goodbyes once per announced service x family (X1), one final SearchStopped per open search (X2), Shutdown reported and every later call of every kind, shutdown included, refused (X3), every reply receiver ever handed out resolved or closed once the daemon thread ended (X4), no panic (X5), second shutdown harmless (X6). A third of the part-A worlds run on a port of their own (5454): goodbyes sent to another port are not heard and do not count. Part A3: a slow consumer whose browse channel is full when shutdown comes still gets its SearchStopped. Part A2: 1-4 calls issued on the daemon thread at the moment the k-th goodbye datagram of a shutdown goes out (send hook): accepted calls are answered or their channel closes. Part B: hundreds (thorough: 20000) of real daemons on private ports with 2-8 racing client threads.",
+  text="Part A: shutdown at every position of every sequence of N<=1 (thorough N<=2) commands out of 20 kinds, released in one iteration or split over up to three, with 0-3 announced services and open searches (a third of the cases with four more open browses and searches whose receivers were dropped without a stop), plus sampled sequences to N=8: goodbyes once per announced service x family (X1), one final SearchStopped per open search (X2), Shutdown reported and every later call of every kind, shutdown included, refused (X3), every reply receiver ever handed out resolved or closed once the daemon thread ended (X4), no panic (X5), second shutdown harmless (X6). A third of the part-A worlds run on a port of their own (5454): goodbyes sent to another port are not heard and do not count. Part A4: shutdown 5-700 ms into the update of a service that was renamed by a conflict still withdraws the announced name. Part A3: a slow consumer whose browse channel is full when shutdown comes still gets its SearchStopped. Part A2: 1-4 calls issued on the daemon thread at the moment the k-th goodbye datagram of a shutdown goes out (send hook): accepted calls are answered or their channel closes. Part B: hundreds (thorough: 20000) of real daemons on private ports with 2-8 racing client threads that read their channels as they go; one run in eight shuts down 0.9-2.5 s late, with services announced and events flowing.",
   note="Part B samples OS schedules. Thorough also runs Part B under ThreadSanitizer (nightly, -Zbuild-std, 16 x 120 daemons) and under valgrind memcheck (8 x 25 daemons); every report block is a violation of X5; if the instrumented build cannot be made the part is recorded as not run and decides nothing. One known finding (residual send/exit race) in known_findings.json.",
   ref="§6 C14"),
  "C15": dict(
   technique="runtime crash/liveness monitor: panic hook + daemon-thread exit guard + post-input liveness probes, under hostile API arguments and hostile datagram streams in a simulated world with conflict injection",
-  text="Thousands of cases of 1-3 hostile API calls (names from a hostile grammar incl. labels of 0-256 bytes, multi-byte boundaries, dots/backslashes, existing rename suffixes, totals around 255; hostile property lists with key=value of exactly 255 / 256 bytes; extreme numbers), each followed by 6.3 virtual seconds in which every probe is answered with conflicting data, and hundreds of 20-80-datagram streams (random, mutated, grammar-hostile, and valid record chains with hostile labels that the daemon re-encodes in follow-ups and arbitrary / damaged TXT data, strings one byte short or long; conflicting answers also spell the probed name as its escaped text, so that renaming runs for names with dots and backslashes; competing probe queries carrying our records minus one / plus one / changed / reversed arrive next to them); afterwards status must be Running, a fresh browse must start, and the browse opened before the input must still report a new instance.",
+  text="Thousands of cases of 1-3 hostile API calls (names from a hostile grammar incl. labels of 0-256 bytes, multi-byte boundaries, dots/backslashes, existing rename suffixes, totals around 255; hostile property lists with key=value of exactly 255 / 256 bytes; extreme numbers), each followed by 6.3 virtual seconds in which every probe is answered with conflicting data, and hundreds of 20-80-datagram streams (random, mutated, grammar-hostile, and valid record chains with hostile labels that the daemon re-encodes in follow-ups and arbitrary / damaged TXT data, strings one byte short or long, long non-ASCII TXT; scripted: labels that merge into one of more than 63 bytes whose 63rd byte lies inside a 2-/3-/4-byte character, as PTR target and as a one-shot question; conflicting answers also spell the probed name as its escaped text, so that renaming runs for names with dots and backslashes; competing probe queries carrying our records minus one / plus one / changed / reversed arrive next to them); afterwards status must be Running, a fresh browse must start, and the browse opened before the input must still report a new instance.",
   note="Checked profile (overflow checks and debug assertions on), so overflow-only panics are reported too.",
   ref="§6 C15"),
  "C19": dict(
   technique="runtime trace monitor with attribution: every observed PTR/A/AAAA question is matched against the back-off chain of the running search, refresh marks computed from the delivered-record history, or a new-interface event; unexplained or missing queries are violations",
-  text="The search histories of C13 over 20 s and 2-3 virtual hours plus lone searches over three virtual days: each chain instant (start, +1 s, +2 s ... doubling to 3600 s, relative to the previous actual query) must produce its query on every interface and family (B1), gaps never exceed one hour (B3), and every other query for the same question needs a refresh mark (80/85/90/95 %) of a live cached record or an interface arrival (B2); a second browse whose receiver is dropped at once does not silence the running search; an instance delivered in stages with nobody answering gets at most three follow-up rounds, at least half a second apart (B4); the questions one verify request causes come no more often than the doubling chain started at the request allows (B5).",
+  text="The search histories of C13 over 20 s and 2-3 virtual hours plus lone searches over three virtual days: each chain instant (start, +1 s, +2 s ... doubling to 3600 s, relative to the previous actual query) must produce its query on every interface and family (B1), gaps never exceed one hour (B3), and every other query for the same question needs a refresh mark (80/85/90/95 %) of a live cached record or an interface arrival (B2); a second browse whose receiver is dropped at once does not silence the running search; an instance delivered in stages with nobody answering gets at most three follow-up rounds, at least half a second apart, each question once per round, interface and family - also with two SRV records cached for the instance (B4); the questions one verify request causes come no more often than the doubling chain started at the request allows (B5).",
   note="In the search workloads follow-up and verify questions are not attributed; the exemptions are judged by B4 on staged deliveries and by B5 on single verify requests.",
   ref="§6 C19"),
  "C03": dict(
   technique="runtime trace monitor against a delivered-record history model: every ServiceResolved event is checked against the lives (reception, TTL, goodbye, cache-flush displacement, verify cuts) of the records actually delivered to the daemon",
-  text="Thousands of browser scenarios (1-3 scripted services, TTLs 1 s..4500 s per record type, shared hosts, several addresses, v4/v6; announce / split announce / cache-flush updates / goodbye / partial goodbye / vanish / verify / foreign records; responders answering never / always / sometimes; loss, duplication and delay; lazy, eager and oversleep stepping; horizon 3 x largest TTL): instance names with capitals and spaces; values updated and updated back right after a re-announcement: every field of every ServiceResolved must come from records delivered for that instance and live at that instant, and of several live SRV or TXT records the one received last is shown (S1-S4, S1-latest, S3-latest); the two-interface scenarios of C18 part P are judged for the interface tags of the addresses shown, and an address update delivered inside the announcement of a service of an unbrowsed type on the same host for the cache-flush rule.",
+  text="Thousands of browser scenarios (1-3 scripted services, TTLs 1 s..4500 s per record type, shared hosts, several addresses, v4/v6; announce / split announce / cache-flush updates / goodbye / partial goodbye / vanish / verify / foreign records; responders answering never / always / sometimes; loss, duplication and delay; lazy, eager and oversleep stepping; horizon 3 x largest TTL): instance names with capitals and spaces; values updated and updated back right after a re-announcement: every field of every ServiceResolved must come from records delivered for that instance and live at that instant, and of several live SRV or TXT records the one received last is shown (S1-S4, S1-latest, S3-latest); the two-interface scenarios of C18 part P are judged for the interface tags of the addresses shown, and an address update delivered inside the announcement of a service of an unbrowsed type on the same host for the cache-flush rule; an instance without TXT record whose new SRV record arrives inside such an announcement; services that move ports and withdraw their old SRV record.",
   note="Records keep one spelling and one cache-flush setting per identity. Same-instant deliveries are judged leniently (before/during). Trusts the history model (harness/src/model.rs).",
   ref="§6 C03"),
  "C04": dict(
   technique="runtime trace monitor over enumerated delivery orders and packet splits: completeness instants computed from the delivered records, ServiceFound/ServiceResolved required at that very instant; follow-up questions timed on the simulated wire; plus a real-socket race monitor (API calls vs datagrams) for the poller path the simulation bypasses",
-  text="The 4-7 records of an instance in every order and every split into up to four packets (exhaustive for 4 records quick / 5 thorough, sampled beyond), answer or additional section, duplicates, foreign records, 1-3 instances, hostile labels, host names in another letter case, earlier searches of the type (browse / browse_cache, stopped or replaced) before the judged one; PTR-only deliveries with the daemon's follow-up questions answered on try 1/2/3/never: Found then Resolved at the instant the last needed record arrives (F1), follow-ups within 500 ms, 500 ms apart, at most three (F2) - also for an instance that was withdrawn or expired and comes back with a lone PTR, for services carrying an unbrowsed subtype and with PTR answers of other types around ours -, reported name is the registered one (F3). Part R: one real daemon on a private port with a second thread issuing API calls while real announcements arrive (25 rounds quick, 200 thorough): what reached the socket is acted on without waiting for the next datagram.",
+  text="The 4-7 records of an instance in every order and every split into up to four packets (exhaustive for 4 records quick / 5 thorough, sampled beyond), answer or additional section, duplicates, foreign records, 1-3 instances, hostile labels, host names in another letter case, earlier searches of the type (browse / browse_cache, stopped or replaced) before the judged one; PTR-only deliveries with the daemon's follow-up questions answered on try 1/2/3/never: Found then Resolved at the instant the last needed record arrives (F1), follow-ups within 500 ms, 500 ms apart, at most three (F2) - also for an instance that was withdrawn or expired and comes back with a lone PTR, for services carrying an unbrowsed subtype and with PTR answers of other types around ours -, reported name is the registered one (F3). An instance that moved to another host (old SRV record first, then new SRV, goodbye of the old one and the new host's address in every order, one packet or three) is resolved when the last needed record is there. Part R: one real daemon on a private port with a second thread issuing API calls while real announcements arrive (25 rounds quick, 200 thorough): what reached the socket is acted on without waiting for the next datagram.",
   note="No obligation for follow-up questions about names containing '.' or '\\' (re-encoded differently, see known findings of C08).",
   ref="§6 C04"),
  "C05": dict(
@@ -73,12 +73,12 @@ CLAIMS = {
   ref="§6 C05"),
  "C06": dict(
   technique="runtime differential monitor against a responder reference model: for each injected query the response required by the statement is computed from the API history and compared with the daemon's egress of the iteration that consumed the query",
-  text="Thousands of responder scenarios (1-3 interfaces on differing subnets, v4/v6; 1-4 services with subtypes, shared hosts, upper-case letters; registered, re-registered, unregistered) with 10-39 queries each at any time, 1-8 questions among type/subtype/meta PTR, SRV, TXT, ANY, A/AAAA (case variants), foreign names, from port 5353 or an ephemeral port, over IPv4 or IPv6, with and without known answers, with EDNS0 OPT or unknown-type additionals appended, with header bits other than QR set (RD, AD, CD, TC, AA, opcode untouched), instance names with capitals inside and outside ASCII, one scenario in six with a service renamed by a conflict (names in force read off its last announcement): record sets, values, link-local addresses only, destination, ID and question echo (Q1-Q6).",
+  text="Thousands of responder scenarios (1-3 interfaces on differing subnets, v4/v6; 1-4 services with subtypes, shared hosts, upper-case letters; registered, re-registered, unregistered) with 10-39 queries each at any time, 1-8 questions among type/subtype/meta PTR, SRV, TXT, ANY, A/AAAA (case variants), foreign names, from port 5353 or an ephemeral port, over IPv4 or IPv6, with and without known answers, with EDNS0 OPT or unknown-type additionals appended, with header bits other than QR set (RD, AD, CD, TC, AA, opcode untouched), instance names with capitals inside and outside ASCII, services sharing a host name with the same or with per-family address sets, one scenario in six with a service renamed by a conflict (names in force read off its last announcement): record sets, values, link-local addresses only, destination, ID and question echo (Q1-Q6).",
   note="A query is judged only if nothing else was due at that instant and not within 400 ms of the end of probing.",
   ref="§6 C06"),
  "C08": dict(
   technique="runtime trace monitor over the simulated wire of one to three real daemons: injected conflicting responses and competing probes at every probe step, a label-level model of the renaming rule, pairwise antisymmetry runs, and a final-state check over a dense grid of start offsets",
-  text="Part R: conflicting SRV/TXT/A/AAAA responses (also in another letter case) at every millisecond of probing against hostile names (existing suffixes up to 2^32-1, 57-63-byte labels, full-length labels whose counter gains a digit with the next rename, dots, non-ASCII), then questions of every type for old and new names, then unregister/shutdown: lost name never used again, new name by the rule, probed three times, reported by NameChange, used in every later packet, encodable (N1, N4, N5). Part T: record-set pairs shown to each other after the 1st/2nd/3rd probe, sorted / reversed / other case: one-second wait then three probes (N2), opposite verdicts (N3), earlier data yields (N3b), also against foreign SRV records that differ in priority or weight only; a service renamed by a conflict defends its new name against a competing probe before its announcement (N4-defend-renamed). Part D: two or three daemons on one link at offsets from a dense grid x jitters: exactly one keeps each original name, all announced, no shared names (N6).",
+  text="Part R: conflicting SRV/TXT/A/AAAA responses (also in another letter case) at every millisecond of probing against hostile names (existing suffixes up to 2^32-1, 57-63-byte labels, full-length labels whose counter gains a digit with the next rename, dots, non-ASCII), then questions of every type for old and new names, then unregister/shutdown: lost name never used again, new name by the rule, probed three times, reported by NameChange, used in every later packet, encodable (N1, N4, N5). Part T: record-set pairs shown to each other after the 1st/2nd/3rd probe, sorted / reversed / other case: one-second wait then three probes (N2), opposite verdicts (N3), earlier data yields (N3b), also against foreign SRV records that differ in priority or weight only; a service renamed by a conflict defends its new name against a competing probe before its announcement (N4-defend-renamed); a name the daemon held before (unregistered, or announced and being updated) that is registered again with other data and contested while the new data is probed is given up like any other (N1-after-history). Part D: two or three daemons on one link at offsets from a dense grid x jitters: exactly one keeps each original name, all announced, no shared names (N6).",
   note="A counter at 2^32-1 may count on or start a fresh suffix. A conflict after the third probe is 250 ms old is not judged. Two known findings for instance names with a dot inside the label (known_findings.json).",
   ref="§6 C08"),
  "C09": dict(
@@ -88,12 +88,12 @@ CLAIMS = {
   ref="§6 C09"),
  "C10": dict(
   technique="runtime monitor on both sides: responder reference model with known answers around the half-TTL boundary; every query of a browsing daemon parsed and its known answers checked against the delivered-record history",
-  text="Responder: the C06 scenarios with 1-4 known answers per query drawn from the responder's own records with TTL in {0, 1, half-1, half, half+1, full, 2^32-1}, near misses (other RDATA, class, case), with/without cache-flush bit (K1, K2); what only a suppressed answer would have brought must stay out of the additional section (K2-additionals); near misses include a CNAME with the PTR's owner and target. Querier: a PTR of TTL {4, 10, 20, 120} s cached, the type browsed again at every age 0-100 % in 1 % steps and every 20 ms within 1.2 s of half life; every later query parsed: only shared records held with at least half their life left (K3), written with the remaining TTL (K4), on every interface and family (K5).",
+  text="Responder: the C06 scenarios with 1-4 known answers per query drawn from the responder's own records with TTL in {0, 1, half-1, half, half+1, full, 2^32-1}, near misses (other RDATA, class, case), with/without cache-flush bit (K1, K2); what only a suppressed answer would have brought - SRV, TXT, addresses, the subtype's PTR - must stay out of the additional section (K2-additionals); near misses include a CNAME with the PTR's owner and target. Querier: a PTR of TTL {4, 10, 20, 120} s cached, the type browsed again at every age 0-100 % in 1 % steps and every 20 ms within 1.2 s of half life; every later query parsed: only shared records held with at least half their life left (K3), written with the remaining TTL (K4), on every interface and family (K5).",
   note="Ages within one second of the half life may or may not be listed; case-only matches may or may not suppress.",
   ref="§6 C10"),
  "C17": dict(
   technique="runtime trace monitor against the delivered-record history model for address records: every AddressesFound / AddressesRemoved / SearchTimeout / SearchStopped of a hostname search judged both ways",
-  text="Hostname histories: resolve_hostname / stop with the name in any letter case, timeouts {none, 1, 999, 1000, 1001, 1003, 1500, 3002, 7000 ms, 1 h}, a responder announcing 1-2 addresses at a time (v4/v6, owner in any case, TTLs 1-120 s, one of up to two interfaces or of two dual-stack links; alone or inside the announcement of a service of an unbrowsed type), goodbyes, silent loss, queries answered or not, foreign records; observed 150 s past the last call; lazy and eager stepping, a sixth of the histories on a daemon woken up to 2 or 40 ms late: reported addresses are live and complete (H1), removals on time (H2), A and AAAA asked at once and refreshed (H3), timeouts exact (H4), no question and no event after the search ended (H5).",
+  text="Hostname histories: resolve_hostname / stop with the name in any letter case, timeouts {none, 0, 1, 999, 1000, 1001, 1003, 1500, 3002, 7000 ms, 1 h}, a responder announcing 1-2 addresses at a time (v4/v6, owner in any case, TTLs 1-120 s, one of up to two interfaces or of two dual-stack links; alone or before / behind / inside the records of a service of an unbrowsed type), goodbyes, silent loss, queries answered or not, foreign records; observed 150 s past the last call; lazy and eager stepping, a sixth of the histories on a daemon woken up to 2 or 40 ms late: reported addresses are live and complete (H1), removals on time (H2), A and AAAA asked at once and refreshed (H3), timeouts exact (H4), no question and no event after the search ended (H5).",
   note="Each address record keeps one owner spelling and one TTL; late wake-ups are C11's quantifier.",
   ref="§6 C17"),
  "C18": dict(
@@ -103,7 +103,7 @@ CLAIMS = {
   ref="§6 C18"),
  "C20": dict(
   technique="runtime monitor of state size: the daemon's own metrics, a hooked full-state snapshot (map keys, records, timers, retransmissions) and paired 1x/4x traffic runs compared",
-  text="Traffic scenarios (40-400 packets: announcements of types nobody browses, SRV/TXT/address records without PTR, NSEC, instances that come and go, PTR-only instances that never resolve, endless re-announcements; TTLs to 120 s; with/without browse, hostname search (mixed-case names, asked twice, stopped in another spelling), own registration, accept_unsolicited; verify requests with time-outs up to an hour in the runs that end quiescent): after stopping every search and waiting max TTL + 3 s nothing is cached and at most the interface-check timer is left (G1); at checkpoints the cache holds no more than the open searches relate to (G2); 4x the traffic ends with the same counts (G3); while registrations are still probing, 4x the unrelated questions or API calls leave the same number of timers and retransmissions (G4).",
+  text="Traffic scenarios (40-400 packets: announcements of types nobody browses, SRV/TXT/address records without PTR, NSEC, instances that come and go, PTR-only instances that never resolve, endless re-announcements, instances sharing one subtype of which one stays; TTLs to 120 s; with/without browse, hostname search (mixed-case names, asked twice, stopped in another spelling), own registration, accept_unsolicited; verify requests with time-outs up to an hour in the runs that end quiescent): after stopping every search and waiting max TTL + 3 s nothing is cached and at most the interface-check timer is left (G1); at checkpoints the cache holds no more than the open searches relate to, the instance-to-subtype map no more than the instances whose subtype PTR may be alive (G2); 4x the traffic ends with the same counts (G3); while registrations are still probing, 4x the unrelated questions or API calls leave the same number of timers and retransmissions (G4).",
   note="G2 allowance 2 x related + 8; G3 flags growth by more than 2x and more than 6. Four known findings (timer heap, PTR-less records, NSEC) in known_findings.json.",
   ref="§6 C20"),
 }
